@@ -165,12 +165,21 @@ pub(super) fn move_while_borrowed(
     // The following invariant MUST hold at all times: once we visit a node, we must have
     // already visited all the nodes that are connected with it by an outgoing edge (i.e.
     // all the nodes that depend on it).
-    // Any source node works as a starting point for our DfS.
-    let source_id = call_graph.externals(Direction::Incoming).next().unwrap();
-    let mut dfs = DfsPostOrder::new(&call_graph, source_id);
+    // A single source is not enough as a starting point for our DfS: it only reaches the nodes
+    // that depend on it. We go through all sources, sharing the set of visited nodes.
+    let source_ids: Vec<_> = call_graph.externals(Direction::Incoming).collect();
+    let mut dfs = DfsPostOrder::empty(&call_graph);
     let mut node2borrows: HashMap<NodeIndex, IndexSet<NodeIndex>> = HashMap::new();
+    let mut source_ids = source_ids.into_iter();
 
-    while let Some(node_index) = dfs.next(&call_graph) {
+    loop {
+        let Some(node_index) = dfs.next(&call_graph) else {
+            let Some(source_id) = source_ids.next() else {
+                break;
+            };
+            dfs.move_to(source_id);
+            continue;
+        };
         let borrowed_later: IndexSet<NodeIndex> = call_graph
             .neighbors_directed(node_index, Direction::Outgoing)
             .fold(IndexSet::new(), |mut acc, neighbor_index| {
